@@ -183,7 +183,9 @@ static void handler(char **lines, size_t n, int beh) {
       ret = hwloc_topology_load(topo); err = errno;
       loaded = !ret;
       out("{\"e\":\"load\",\"ret\":%d,\"errno\":\"%s\",\"full\":%d,\"slot\":0,\"topos\":[", ret, errname(err), fullp && loaded);
-      if (loaded && fullp) project_topology(topo, 1); else out("{\"n\":0}");
+      /* hwloc_topology_check runs in-process (a fork per behaviour costs more than the rest of the behaviour under the
+       * sanitizer): when it aborts, the signal handler turns the behaviour into a Crash event, which no trace action accepts */
+      if (loaded && fullp) { hwloc_topology_check(topo); project_topology(topo, 0); } else out("{\"n\":0}");
       out("],\"sum\":"); if (loaded) out_summary(topo); else out("{\"depth\":0}");
       out("}"); out_end();
     } else if (!strcmp(cmd, "perturb")) {
